@@ -532,4 +532,10 @@ def check(ctx):
         r3_indirect_stage(ctx, f, rep)
         r4_relay(ctx, f, rep)
         r5_suspect_once(ctx, f, rep)
+        rep.rule('C12-R6', 'a round aborted by going idle, becoming defunct or changing identity leaves no evidence or target '
+                           'behind: every function that leaves the Connected state or resets the instance clears the probe '
+                           '(C13-R1 re-run)')
+        from . import c13
+        from .c09 import _Rename
+        c13.r1_bumps(ctx, f, _Rename(rep, 'C13-R1', 'C12-R6'), eff)
     rep.cur_config = None
